@@ -89,8 +89,6 @@ impl Ansi256Color {
             best_distance as int == sd(color, XTERM_COLORS@[best_index as int]),
             first_argmin(XTERM_COLORS@, color, 16, index as int, best_index as int),
         decreases 256 - index,
-//@before 1 best_index
-    proof { assert(index == 256); }   // the scan covers the whole table (fails fast and by name when it does not)
 //@end
 
 impl Palette {
@@ -129,8 +127,6 @@ impl Palette {
             best_distance as int == sd(color, self.0@[best_index as int]),
             first_argmin(self.0@, color, 0, index as int, best_index as int),
         decreases 16 - index,
-//@before 1 if let Some(color) = anstyle::Ansi256Color(best_index as u8).into_ansi() {
-        proof { assert(index == 16); }   // the scan covers the whole palette
 //@end
 }
 
